@@ -1112,3 +1112,45 @@ theorem truncNorm_id_zero_or_large' [Field K] [LinearOrder K] (eps : K) (row : L
   simp only [e, h2, div_one]
   simp
 end QM.C08
+
+namespace QM.C08
+variable {K : Type} {m n : Nat}
+
+theorem matA_mkCoeffs (per : List (List (List K × K))) :
+    matA (mkCoeffs per) = (per.map fun rows => rows.map (·.1)).flatten := by
+  unfold matA
+  rw [sortCoeffs_mkCoeffs, mkCoeffs_eq]
+  exact coeffsFrom_map 0 per (fun a _ => a)
+
+/-- the statistics of two variable vectors agree iff their products with every row of matA agree (the offsets cancel) -/
+theorem dists_eq_iff [Field K] (per : List (List (List K × K))) (v v' : List K) :
+    ((per.map fun rows => rows.map (rowVal v)) = per.map fun rows => rows.map (rowVal v')) ↔
+      (matA (mkCoeffs per)).map (fun row => ldot row v) = (matA (mkCoeffs per)).map (fun row => ldot row v') := by
+  rw [matA_mkCoeffs, List.map_inj_left, List.map_inj_left]
+  constructor
+  · intro h row hrow
+    simp only [List.mem_flatten, List.mem_map] at hrow
+    obtain ⟨l, ⟨rows, hr, rfl⟩, hl⟩ := hrow
+    obtain ⟨ab, hab, rfl⟩ := List.mem_map.1 hl
+    have := List.map_inj_left.1 (h rows hr) ab hab
+    exact add_right_cancel this
+  · intro h rows hr
+    rw [List.map_inj_left]
+    intro ab hab
+    have := h ab.1 (by
+      simp only [List.mem_flatten, List.mem_map]
+      exact ⟨rows.map (·.1), ⟨rows, hr, rfl⟩, List.mem_map.2 ⟨ab, hab, rfl⟩⟩)
+    simp only [rowVal, this]
+
+end QM.C08
+
+namespace QM.C08
+theorem mapM_opt_congr {α β : Type} (f g : α → Option β) :
+    ∀ (l : List α), (∀ a ∈ l, f a = g a) → l.mapM f = l.mapM g := by
+  intro l
+  induction l with
+  | nil => intro _; rfl
+  | cons a l ih =>
+    intro h
+    rw [List.mapM_cons, List.mapM_cons, h a (by simp), ih (fun a' ha' => h a' (by simp [ha']))]
+end QM.C08
